@@ -152,7 +152,14 @@ def generate(seed, tier="quick"):
     wrng = sub(seed, "twin")
     if wrng.random() < 0.12 and len(prog["files"]) == 1:
         # a second module with the same text layout whose names resolve to other data
-        W.add_twin_file(prog, wrng, vary=True)
+        tw = W.add_twin_file(prog, wrng, vary=True)
+        # the same helper text in both modules reads a module-level name that has another value in each of them
+        for f, suffix, kv in ((prog["files"][0], "", 3), (tw, "w", 4)):
+            f["header"] = dict(f.get("header") or {})
+            f["header"]["pre"] = list(f["header"].get("pre", [])) + [f"K = {kv}"]
+            f["sites"]["kq" + suffix] = {"op": "eq", "place": "func", "arg": "[K, 1]", "prev": ["list", [["int", kv], ["int", 1]]], "name": "kq", "wrapped": True}
+            f["tests"].append({"name": "test_kq", "events": [{"t": "cmp", "eid": "ekq" + suffix, "site": "kq" + suffix, "vals": [["list", [["int", kv], ["int", 1]]]], "style": "rec"},
+                                                             {"t": "cmp", "eid": "ekr" + suffix, "site": "kq" + suffix, "vals": [["list", [["int", 9]]]], "style": "rec"}]})
     return {"program": prog, "route": route, "ci_var": sub(seed, "ci").choice(drivers.CI_VARS), "plugin_active": sub(seed, "pa").random() < 0.3}
 
 
@@ -177,6 +184,10 @@ def execute(case, ctx):
         try:
             src[sid] = MISSING if call.arg_text is None else P.eval_arg(call.arg_text)
         except Exception:
+            site = sidx[sid][1]
+            if site.get("name") == "kq" and site.get("prev") is not None:
+                src[sid] = V.pyval(site["prev"])  # the argument reads a module-level name of its own file: the program says what it evaluates to
+                continue
             out["discards"]["stored-argument-does-not-evaluate"] = 1
             return out
     events = W.events_in_order(prog)
